@@ -1,12 +1,14 @@
 package gen
 
 import (
+	"strings"
+
 	"pgregory.net/rapid"
 
 	"verif/harness/world"
 )
 
-var c04Vary = []string{"", "X-A", "X-B", "X-A, X-B", "x-b ,X-A", "Accept-Encoding", "Accept-Language", "*", "X-A, *", "X-A,X-B", "Authorization", "Authorization, X-A", "Cookie", "User-Agent"}
+var c04Vary = []string{"", "X-A", "X-B", "X-A, X-B", "X-A|X-B", "X-B|X-A", "Accept-Encoding|X-A", "|X-A", "x-b ,X-A", "Accept-Encoding", "Accept-Language", "*", "X-A, *", "X-A,X-B", "Authorization", "Authorization, X-A", "Cookie", "User-Agent"}
 var c04Pieces = []string{"", "1", "2", "X-A", "X-B", "1X-B2", " 1", "1 ", "a,b", "b, a", "GZIP", "gzip", "x-gzip", "en;q=0.5", "en", ",", "caf$XE9", "caf$XE8", "caf$XC3$XA9", "caf%E9", "caf%e8", "$XEF$XBF$XBD", "636166e9"}
 
 // values of fields with a structure of their own (credentials, cookies, product tokens)
@@ -14,6 +16,16 @@ var c04Structured = map[string][]string{
 	"Authorization": {`Digest realm="api", username="alice", nonce="n1"`, `Digest realm="api", username="bob", nonce="n1"`, `Digest realm="api"`, "Bearer abc", "Bearer abd", "Basic QWxhZGRpbjpvcGVu", "Basic QWxhZGRpbjpvcGVuIHNlc2FtZQ==", "Token a b", "Token a c"},
 	"Cookie":        {"sid=1; theme=dark", "sid=2; theme=dark", "sid=1", "theme=dark; sid=1"},
 	"User-Agent":    {"curl/8.0", "curl/8.1", "Mozilla/5.0 (X11) A/1", "Mozilla/5.0 (X11) A/2"},
+}
+
+// VaryLines renders a Vary pool value: "|" separates field lines (a list field may be split
+// over several lines, RFC 9110 §5.3; an empty line is an empty list).
+func VaryLines(v string) [][2]string {
+	var out [][2]string
+	for _, line := range strings.Split(v, "|") {
+		out = append(out, H("Vary", line))
+	}
+	return out
 }
 
 func c04Value(t *rapid.T, label string) string {
@@ -141,7 +153,7 @@ func C04(t *rapid.T) *world.Scenario {
 			varyPool = []string{"X-A", "X-B", "X-A", "X-B", "X-A, X-B", ""}
 		}
 		if v := Pick(t, lbl+"-vary", varyPool...); v != "" {
-			rp.Header = append(rp.Header, H("Vary", v))
+			rp.Header = append(rp.Header, VaryLines(v)...)
 		}
 		if grid && Pct(t, lbl+"-nocache", 40) {
 			// must be validated on every reuse, so the origin can change Vary with a full reply
@@ -158,7 +170,7 @@ func C04(t *rapid.T) *world.Scenario {
 				fv = []string{"X-A", "X-B", "X-A, X-B"}
 			}
 			if v := Pick(t, lbl+"-fvary", fv...); v != "" {
-				c.Header = append(c.Header, H("Vary", v))
+				c.Header = append(c.Header, VaryLines(v)...)
 			}
 			rq.Cond = &c
 		case 0:
@@ -167,7 +179,7 @@ func C04(t *rapid.T) *world.Scenario {
 			c := Simple304()
 			c.Header = append(c.Header, H("Cache-Control", "max-age=100"))
 			if v := Pick(t, lbl+"-cvary", c04Vary...); v != "" {
-				c.Header = append(c.Header, H("Vary", v))
+				c.Header = append(c.Header, VaryLines(v)...)
 			}
 			rq.Cond = c
 		}
@@ -185,7 +197,7 @@ func C19(t *rapid.T, n int) *world.Scenario {
 		// a nominated header value with a byte that is not valid UTF-8 (obs-text is legal)
 		combos = append(combos, [][2]string{H("X-A", "caf$XE9")})
 	}
-	varyPool := []string{"", "X-A", "*", "X-A, X-B", "X-B", "X-A, *", "*, X-B"}
+	varyPool := []string{"", "X-A", "*", "X-A, X-B", "X-B", "X-A, *", "*, X-B", "X-A|X-B", "If-None-Match", "X-A, If-Modified-Since"}
 	nv := rapid.IntRange(1, 3).Draw(t, "nvary")
 	varies := make([]string, nv)
 	for i := range varies {
@@ -206,14 +218,14 @@ func C19(t *rapid.T, n int) *world.Scenario {
 			}
 			rp := world.Reply{Kind: "resp", Status: 200, Body: world.Body{Len: 16}, Header: [][2]string{H("Date", "$T+0"), H("Cache-Control", cc), H("Etag", `"v$S"`)}}
 			if v := varies[rapid.IntRange(0, nv-1).Draw(t, lbl+"-v")]; v != "" {
-				rp.Header = append(rp.Header, H("Vary", v))
+				rp.Header = append(rp.Header, VaryLines(v)...)
 			}
 			rq.Uncond = rp
 			if Pct(t, lbl+"-304", 50) {
 				rq.Cond = Simple304()
 				if Pct(t, lbl+"-304v", 40) {
 					if v := varies[rapid.IntRange(0, nv-1).Draw(t, lbl+"-cv")]; v != "" {
-						rq.Cond.Header = append(rq.Cond.Header, H("Vary", v))
+						rq.Cond.Header = append(rq.Cond.Header, VaryLines(v)...)
 					}
 				}
 			}
@@ -228,6 +240,11 @@ func C19(t *rapid.T, n int) *world.Scenario {
 			rq.Uncond.Header = append(rq.Uncond.Header, H(Pick(t, "ulocf", "Location", "Content-Location"), loc))
 		}
 		alphabet = append(alphabet, ReqStep(rq))
+	}
+	if Pct(t, "lostentry", 25) {
+		// an entry disappears behind the cache's back (clean-up of the cache directory, the
+		// maintenance API): what the index still lists must go all the same on invalidation
+		alphabet = append(alphabet, world.Step{Op: "corrupt", Corrupt: &world.Corrupt{KeySel: rapid.IntRange(0, 7).Draw(t, "lostkey"), Kind: "delete"}})
 	}
 	alphabet = append(alphabet, SleepStep(Pick(t, "sl", int64(1), 6, 40)))
 	order := make([]int, n)
